@@ -53,7 +53,11 @@ func init() {
 // ---------------------------------------------------------------- schedules
 
 func c13Schedules(s Src, base sim.Config, n int, nranges int, fresh bool) []Run {
-	runs := []Run{{Role: "identity", Cfg: base}}
+	// the very same configuration again: in this process, and (sometimes) in a fresh one
+	runs := []Run{{Role: "identity", Cfg: base}, {Role: "identity-again", Cfg: base}}
+	if fresh {
+		runs = append(runs, Run{Role: "fresh-process:identity", Cfg: base})
+	}
 	rev := base
 	for i := 0; i < nranges; i++ {
 		rev.Orders = append(rev.Orders, -1)
@@ -178,6 +182,94 @@ func c13ObjectProgram(s Src) (string, *C13Expect) {
 	return strings.Join(ls, "\n") + "\n", ex
 }
 
+// ---------------------------------------------------------------- diagnostics-heavy generator
+
+// Programs with several similarly named variables, parameters, functions and
+// properties in scope that end in one runtime error of a drawn kind: whatever
+// the diagnostic says (hints, quoted source, suggestions) must not depend on
+// the order in which any table is walked.
+func c13DiagProgram(s Src) (string, *C13Expect) {
+	ex := &C13Expect{Source: "diag-heavy"}
+	var ls []string
+	stems := []string{"total", "count", "name", "value"}
+	st := Pick(s, "stem", stems)
+	variants := []string{st + "1", st + "2", st + "s", st + "a", st[:len(st)-1], "x" + st, st + "_", st + "\u0995"}
+	nv := s.Int("nvars", 2, 6)
+	for i := 0; i < nv; i++ {
+		ls = append(ls, fmt.Sprintf("%s %s = %d;", KwVar, variants[i], i+1))
+	}
+	ls = append(ls, fmt.Sprintf("%s work1(p%s1, p%s2) { %s l%sa = 1; %s p%s1 + l%sa; }", KwFun, st, st, KwVar, st, KwReturn, st, st))
+	ls = append(ls, fmt.Sprintf("%s work2(a) { %s a; }", KwFun, KwReturn))
+	ls = append(ls, fmt.Sprintf("%s worka() { %s l%s1 = 1; %s l%s2 = 2; %s l%s; }", KwFun, KwVar, st, KwVar, st, KwPrint, st))
+	ls = append(ls, fmt.Sprintf("%s obj = {%s1: 1, %s2: 2, %s: 3, %sx: 4};", KwVar, st, st, st[:len(st)-1], st))
+	ls = append(ls, fmt.Sprintf("%s \"before\";", KwPrint))
+	switch s.Int("errkind", 0, 9) {
+	case 0:
+		ls = append(ls, fmt.Sprintf("%s %s;", KwPrint, st))
+	case 1:
+		ls = append(ls, fmt.Sprintf("%s = 5;", st))
+	case 2:
+		ls = append(ls, fmt.Sprintf("%s obj.%sy;", KwPrint, st))
+	case 3:
+		ls = append(ls, "work(1, 2);")
+	case 4:
+		ls = append(ls, "worka();")
+	case 5:
+		ls = append(ls, "work1(1);")
+	case 6:
+		ls = append(ls, fmt.Sprintf("%s %s = 9;", KwVar, variants[0]))
+	case 7:
+		ls = append(ls, fmt.Sprintf("%s();", variants[0]))
+	case 8:
+		ls = append(ls, fmt.Sprintf("%s(obj, \"%sz\");", FnDelete, st))
+	default:
+		ls = append(ls, fmt.Sprintf("%s obj.%s1.deep;", KwPrint, st))
+	}
+	ls = append(ls, fmt.Sprintf("%s \"after\";", KwPrint))
+	return strings.Join(ls, "\n") + "\n", ex
+}
+
+// churn: many short-lived objects of equal size and different shape, listed
+// right after creation, with the collector running only where the schedule
+// says. Anything keyed on an address (or otherwise surviving an object) shows
+// as a difference between schedules with different GC points.
+func c13ChurnProgram(s Src) (string, *C13Expect) {
+	n := s.Int("iters", 200, 1200)
+	var ls []string
+	ls = append(ls, fmt.Sprintf("%s i = 0;", KwVar))
+	ls = append(ls, fmt.Sprintf("%s (i < %d) {", KwWhile, n))
+	ls = append(ls, fmt.Sprintf("  %s a = {alpha: i, beta: 1};", KwVar))
+	ls = append(ls, fmt.Sprintf("  %s %s(a);", KwPrint, FnKeys))
+	ls = append(ls, fmt.Sprintf("  %s b = {gamma: i, delta: 2};", KwVar))
+	ls = append(ls, fmt.Sprintf("  %s %s(b);", KwPrint, FnKeys))
+	ls = append(ls, fmt.Sprintf("  %s c = [i, i + 1];", KwVar))
+	ls = append(ls, fmt.Sprintf("  %s d = {omega: c, zeta: 3};", KwVar))
+	ls = append(ls, fmt.Sprintf("  %s %s(d);", KwPrint, FnValues))
+	ls = append(ls, "  i = i + 1;")
+	ls = append(ls, "}")
+	return strings.Join(ls, "\n") + "\n", &C13Expect{Source: "churn"}
+}
+
+func c13ChurnCase(s Src) *Case {
+	prog, ex := c13ChurnProgram(s)
+	cs := &Case{Prop: "C13", Kind: "churn", Sig: "churn", Program: prog, Aux: &Aux{C13: ex}}
+	base := scriptCfg(prog, "")
+	base.GCOff = true
+	base.Budget = 20000000
+	cs.Runs = []Run{{Role: "fresh-process:no-gc", Cfg: base}}
+	for i := 0; i < 3; i++ {
+		c := base
+		t := 0
+		k := s.Int("ngc", 2, 12)
+		for j := 0; j < k; j++ {
+			t += s.Int("gcgap", 2000, 60000)
+			c.GCTicks = append(c.GCTicks, t)
+		}
+		cs.Runs = append(cs.Runs, Run{Role: fmt.Sprintf("fresh-process:gc%d", i), Cfg: c})
+	}
+	return cs
+}
+
 // ---------------------------------------------------------------- cases
 
 func c13Case(s Src, kind, prog, stdin string, ex *C13Expect, nsched int, fresh bool) *Case {
@@ -237,6 +329,18 @@ func c13Systematic(tier string) []*Case {
 		prog, e := c13ObjectProgram(src)
 		out = append(out, c13Case(src, "object-heavy", prog, "", e, 8, i%10 == 0))
 	}
+	for i := 0; i < 40; i++ {
+		src := &lcgSrc{x: uint64(i)*1531 + 11}
+		prog, e := c13DiagProgram(src)
+		out = append(out, c13Case(src, "diag-heavy", prog, "", e, 8, i%10 == 0))
+	}
+	nchurn := 6
+	if tier == "thorough" {
+		nchurn = 60
+	}
+	for i := 0; i < nchurn; i++ {
+		out = append(out, c13ChurnCase(&lcgSrc{x: uint64(i)*7001 + 5}))
+	}
 	return out
 }
 
@@ -246,7 +350,10 @@ func c13Random(s Src, tier string) *Case {
 		n = 16
 	}
 	fresh := Chance(s, "fresh", 1, 40)
-	switch s.Int("family", 0, 9) {
+	switch s.Int("family", 0, 12) {
+	case 10, 11, 12:
+		prog, e := c13DiagProgram(s)
+		return c13Case(s, "diag-heavy", prog, "", e, n, fresh)
 	case 0, 1:
 		maxOps := 8
 		prog, _ := c12Program(s, maxOps)
